@@ -325,6 +325,45 @@ func cmdCheck(args []string) {
 				vcs[i] = vc2
 			}
 		}
+		// Third chance (a loaded machine): what is still open only because every solver ran out of time - no
+		// counterexample, no "unknown" - is asked once more, those queries alone, a few at a time, with four times
+		// the time. Only for a handful of obligations: more than that is not a matter of machine load.
+		var late []*Obligation
+		for _, i := range again {
+			refuted := false
+			var open []*Obligation
+			for _, o := range vcs[i].obls {
+				if o.ok() {
+					continue
+				}
+				if o.Result == "timeout" && !o.ExpectSat {
+					open = append(open, o)
+				} else {
+					refuted = true
+				}
+			}
+			if !refuted {
+				late = append(late, open...)
+			}
+		}
+		if len(late) > 0 && len(late) <= 8 {
+			opts3 := opts2
+			opts3.timeoutS = opts.timeoutS * 4
+			for k := 0; k < len(late); k += 3 {
+				end := k + 3
+				if end > len(late) {
+					end = len(late)
+				}
+				solveAll(late[k:end], opts3)
+			}
+			left := 0
+			for _, o := range late {
+				if !o.ok() {
+					left++
+				}
+			}
+			c.retried = append(c.retried, fmt.Sprintf("third chance: %d obligations open by timeout only, %d still open at %ds", len(late), left, opts3.timeoutS))
+		}
 		houdiniTimeoutS = 8
 		c.obls = c.obls[:0]
 		for _, vc := range vcs {
